@@ -362,14 +362,19 @@ def r10c(ck, prog):
             ck.violation("R10c", "R10c/make_seq/member-%s" % grp, where,
                          "update_gaps receives the length of %s but the gap counts of %s" % (seq0[:1], seq1[:1]), prog.config)
         if grp is None:
+            if M is not M0:
+                raise AnalysisBroken("R10c: which group the helper %s walks (member index %s) is not resolved; not decided for this shape" % (M.name, e1[:60]))
             ck.violation("R10c", "R10c/make_seq/group", where, "the member index does not come from sip[a] / sip[b]", prog.config)
             continue
         from ..affine import loop_range
-        rng = loop_range(lp)
+        from ..affine import single_defs
+        rng = loop_range(lp, single_defs(M))
         if rng is None:
             raise AnalysisBroken("R10c: the member loop at %s is not one of the recognised counting idioms" % lp.loc)
         var, lo, hi = rng
         full = lo.is_const() and lo.c == 0 and hi.c == 0 and hi.t == {"msa->nsip[%s]" % gname: 1}
+        if not full and M is not M0 and not (hi.is_const() or set(hi.t) <= {"msa->nsip[%s]" % gname}):
+            raise AnalysisBroken("R10c: the bound %s of the member loop in %s is not comparable with nsip[%s]; not decided" % (hi, M.name, gname))
         uses_var = ("sip[%s][%s]" % (gname, var)) in e1
         if not full or not uses_var:
             ck.violation("R10c", "R10c/make_seq/coverage-%s" % grp, where,
